@@ -217,7 +217,9 @@ func wrapBranch(name string, message profile.Message, branch BranchRegoResult, m
 		}
 		matchesLine := fmt.Sprintf("  %s := trace(\"%s\",\"%s\",%s,%s)", bindingResult, r.ConstraintId(), traceResultPath, r.TraceNode, r.TraceValue)
 		for _, l := range r.Rego {
-			if strings.Contains(l, "$message") {
+			// $message is a placeholder of embedded Rego code only; the same characters inside the
+			// values or patterns of declarative constraints are plain data
+			if r.Constraint == "rego" && strings.Contains(l, "$message") {
 				customMessage = true
 				l = strings.ReplaceAll(l, "$message", "message")
 			}
